@@ -324,6 +324,8 @@ func (s *Support) Cases(thorough bool) []*Case {
 	out = append(out, &Case{ID: "CXWideM", Ctx: "X", Class: "X|array-of-512-byte-structs-in-message", Extra: []*Record{w256, w512},
 		Rec: &Record{Kind: Message, Name: "CXWideM", Fields: []Field{{Name: "f", Index: 1, Type: A(R(w512))}, {Name: "after", Index: 2, Type: P("int32")}}}})
 	// big arrays of enums (a bulk read of the payload crosses the 4096-byte threshold)
+	// ... and of one-byte enums (candidates for bulk reads and writes)
+	sp("CXBigEnum8", "big-one-byte-enum-array", &Record{Kind: Struct, Fields: []Field{{Name: "a", Type: A(E(s.Enums[2]))}, {Name: "b", Type: A(E(s.Enums[1]))}, after()}})
 	sp("CXBigEnum", "big-enum-array", &Record{Kind: Struct, Fields: []Field{{Name: "a", Type: A(E(s.Enums[3]))}, after()}})
 	// recursion through a message / a union
 	rm := &Record{Kind: Message, Name: "CXRecM"}
